@@ -62,6 +62,9 @@ def build(r):
     if t == 'call':
         from . import vtypes
         return vtypes.build_call(r, build)
+    if t == 'pred':
+        from . import faults
+        return faults.PredThing(bool(r[1]), r[2])
     if t == 'opaque':
         from . import faults
         return faults.OpaqueObj(r[1])
